@@ -79,6 +79,9 @@ def run_traced(text, cpu_s=8):
         run = osmt.run_opensmt(text, flavour="rel", cpu_s=cpu_s, env={"OSMT_VERIF_TRACE": tpath})
         with open(tpath, errors="replace") as f:
             trace = f.read()
+        # a run that hit its CPU limit (or died) may leave a cut last line: an incomplete event is not an event
+        if trace and not trace.endswith("\n"):
+            trace = trace[:trace.rfind("\n") + 1]
     finally:
         try:
             os.remove(tpath)
